@@ -480,6 +480,10 @@ def run_c13(w: World, rep: Report):
            'the graftap lock is an OP_TAPROOT: the committed script runs only on the edge where the recomputed point equals '
            'the root, every other script-path exit yields false, and the key path checks under the root (C05.R1/R2 '
            're-evaluated)', floor=8)
+    depend(rep, w, 'rules_c11', ('C11.R4',), 'C13.TD11',
+           'the witnesses push committed and surrogate scripts of any length: PUSH selects a push instruction for every '
+           'length 1..65535 (C11.R4 re-evaluated)', floor=4)
+    sigflags_forwarded(w, rep, 'C13.T13')
     depend(rep, w, 'rules_c09', ('C09.R1',), 'C13.TD9',
            'the script paths (script-hash, graftroot surrogate, graftap script) run their signature checks inside EVAL: '
            'plugins, contracts and limits of the run reach every sub-tape (C09.R1 re-evaluated)', floor=20)
@@ -978,6 +982,7 @@ def c05_builders(w: World, rep: Report):
     rep.check('C05.R5', 'tools|flag-byte-encoded-unsigned', not bad5, line=bad5[0][1] if bad5 else None, file=REL,
               why='' if not bad5 else f'{bad5[0][0]}: `{bad5[0][2]}` encodes the sigflags with the signed minimal codec: flags with bit '
               f'0x80 set become two bytes, the signature item is 66 bytes long and every lock rejects the builder\'s own witness')
+    sigflags_forwarded(w, rep, 'C05.R8')
     signed_message_from_vm(w, rep, 'C05.R6')
     sigfields_plumbed(w, rep, 'C05.R7')
     a, b = root_exprs('make_taproot_lock'), root_exprs(lock)
@@ -1269,3 +1274,47 @@ def no_falsy_default_on_numbers(w: World, rep: Report, rule: str, floor: int = 1
               f'another value than the caller asked for', facts={'functions_with_numeric_parameters': n})
     if n < 10:
         raise AnalysisError('tools.py: builders with numeric parameters not found (inventory changed)')
+
+
+def sigflags_forwarded(w: World, rep: Report, rule: str, floor: int = 10):
+    """A builder that takes `sigflags` hands it to every other builder it calls that takes `sigflags` too (a lock or
+    witness composed from others permits / signs with the flags its caller asked for), and every builder's default
+    for the parameter is the documented '00' (no field may be left out unless the caller says so)."""
+    rep.rule(rule, "builders forward their sigflags to every builder they call that accepts it; the default of the parameter "
+             "is '00' everywhere", floor=floor)
+    m = w.repo.module('tools')
+    fns = {f.name: f for f in m.tree.body if isinstance(f, ast.FunctionDef)}
+
+    def params(f):
+        return [a.arg for a in f.args.posonlyargs + f.args.args + f.args.kwonlyargs]
+    takes = {n for n, f in fns.items() if 'sigflags' in params(f)}
+    n_calls = 0
+    for name in sorted(takes):
+        f = fns[name]
+        a = f.args
+        pos = a.posonlyargs + a.args
+        dflt = dict(zip([x.arg for x in pos[len(pos) - len(a.defaults):]], a.defaults))
+        dflt.update({x.arg: d for x, d in zip(a.kwonlyargs, a.kw_defaults) if d is not None})
+        d = dflt.get('sigflags')
+        okd = d is None or (isinstance(d, ast.Constant) and d.value == '00')
+        rep.check(rule, f'tools.{name}|sigflags-default-00', okd, line=f.lineno, file=REL,
+                  why='' if okd else f"{name} defaults sigflags to {ast.unparse(d)}: a lock or witness built without asking for flags "
+                  f"permits / uses a flag that leaves a sigfield out of the signed message")
+        for c in [x for x in ast.walk(f) if isinstance(x, ast.Call) and isinstance(x.func, ast.Name) and x.func.id in takes
+                  and x.func.id != name]:
+            n_calls += 1
+            callee = fns[c.func.id]
+            cp = params(callee)
+            idx = cp.index('sigflags')
+            passed = None
+            if len(c.args) > idx and not any(isinstance(z, ast.Starred) for z in c.args):
+                passed = c.args[idx]
+            for k in c.keywords:
+                if k.arg == 'sigflags':
+                    passed = k.value
+            okc = passed is not None and any(isinstance(y, ast.Name) and y.id == 'sigflags' for y in ast.walk(passed))
+            rep.check(rule, f'tools.{name}|calls {c.func.id}@{c.lineno - f.lineno}|sigflags-forwarded', okc, line=c.lineno, file=REL,
+                      why='' if okc else f'{name} calls {c.func.id} without its sigflags: that part is built for flags 00 while the rest '
+                      f'uses the caller\'s flags - the builder\'s own lock and witness no longer agree')
+    if n_calls < 5:
+        raise AnalysisError('tools.py: composed builders with sigflags not found (inventory changed)')
